@@ -1,122 +1,280 @@
 import FitProps.SharedLemmas
+import FitModel.SharedGen
 /-! # C15 — Independent SDK objects can be used concurrently without interference
 
-Model: `Fit.Shared` (FitModel/Shared.lean): the package-level state the objects share (factory table behind `sync.Once`,
-the `sync.Pool` of field arrays, a caller-provided `Options` cell), operations as programs over an alphabet of atomic
-actions, executions = arbitrary interleavings (`exec` over a schedule that also resolves `sync.Pool.Get`'s choice).
+Three layers, each labelled with what carries it.
 
-**Proved** (for every number of operations, every program over the alphabet, every schedule, every `Get` choice):
-results and private states of an operation do not depend on what the other operations do (`C15_non_interference`), the
-pool only ever holds zeroed arrays (`C15_pool_inv`), results do not even rest on that (`C15_op_result_indep_of_pool`),
-actions of different operations commute (`C15_actions_commute`), and no operation ever writes a caller's options object
-— `Factory` set or nil, shared or not (`C15_options_never_written`, `C15_no_conflict`); a conversion with a shared
-options object yields its solo result (`C15_shared_options_result`). Until /repo's repair of KF-C15-1 (F16) the last
-three held only for options whose `Factory` is set: `ToMesg` assigned the default to the caller's object.
+**1. Shared-state inventory — REGENERATED from the Go source on every run, obligations decided by the kernel.**
+`translators/sharedstate` (go/types + go/ssa reference analysis) lists every package-level variable of the packages behind
+the public API, every function that writes it after initialisation and under which guard, every direct read, every user of
+the `sync.Pool`s with its Get/Put discipline, what escapes, which rows every exported function's call graph touches, and
+the exported functions that write through a pointer parameter (`FitModel/Generated/SharedState.lean`).
+`C15_inventory_writes_guarded`, `C15_no_caller_options_written`, `C15_inventory_escapes_listed`,
+`C15_no_table_entry_named_unknown` are `decide +kernel` over that table. An exception is a named (variable, function)
+pair with its reason (`exceptions`); `C15_inventory_exceptions_used` keeps the list from rotting.
 
-**Runtime truth, not proved**: absence of word-level data races in the compiled binary under the Go memory model. The
-model knows the shared cells listed in FitModel/Shared.lean; a shared word it does not know is visible only to the race
-detector, which the `concurrent` family runs under in both tiers (every report fails the check). -/
+**2. Model — hand-written over exactly those rows, proved for all programs and all interleavings.**
+`Fit.Shared`: a data cell per row, a three-state `sync.Once` whose closure runs step by step (publish, fill) while other
+callers block, pools of objects with identity, caller-supplied option objects; a program is a list of actions; `wf` is the
+static discipline (a lazily built row is read only after the own `Do`, no unguarded write of a shared row, an object goes
+back to the pool once and its content is looked at only after the own reset, option objects are only read).
+`C15_non_interference`: under every interleaving and every resolution of `Get`, every operation observes exactly what it
+observes when it runs alone — the solo run is the same `exec` with one thread (`C15_solo_run_is_exec`).
+The four witness theorems show that dropping any clause of `wf` breaks it in the model.
+
+**3. Tie of 2 to 1 — regenerated mapping, kernel-decided.** `progOfTouches` turns the regenerated touches of an entry
+point into its program; `C15_generated_programs_wf`: every touch class of every exported function is well formed, so
+`C15_entry_points_non_interference` applies to every set of entry points. A new unguarded write, a read in front of the
+`Once`, a double `Put`, a write to a caller's options breaks an obligation of layer 1 or 3 at the proof stage.
+
+**Not proved — sampled.** That the model's actions are what the compiled code does (an action = the atomic effect the
+Go memory model gives a properly synchronised access) and that the binary has no word-level data race: family `concurrent`
+(concurrent = solo on the real code) and the race detector, see `checklib/props/C15.py`. -/
 namespace Fit.C15
-open Fit.Shared
+open Fit.Shared Fit.SharedInv Fit.SharedGen
+open Fit.Gen
 
-/-- reachable configurations: any schedule from a well-formed initial shared state -/
-def Reach (progs : List (List Act)) (sh0 : Sh) (cfg : Cfg) : Prop := ∃ sched, cfg = exec (initCfg progs sh0) sched
+/-! ## 1. the inventory -/
 
-/-- **pool_inv**: whatever the interleaving, every array in the `sync.Pool` is zeroed ("cleared before being returned"):
-no operation can find another operation's fields in an array it gets. -/
-theorem C15_pool_inv (progs : List (List Act)) (sh0 : Sh) (h0 : ShOK sh0) (cfg : Cfg) (hr : Reach progs sh0 cfg) :
-    ∀ a ∈ cfg.sh.pool, a = zeroArr := by
-  obtain ⟨sched, rfl⟩ := hr
-  exact (cfgInv_exec sh0 sched _ (cfgInv_init progs sh0 h0)).shok.1
+/-- **Every package-level variable that is written after initialisation is (a) a `sync.Pool` accessed only through
+`Get`/`Put` by users that obey the pool discipline, (b) written only inside ONE `sync.Once` and read only after a `Do`
+call on it, or (c) an explicitly listed exception** — over the table regenerated from the source. -/
+theorem C15_inventory_writes_guarded : ∀ r ∈ SharedState.rows, r.writesGuarded SharedState.funcs exceptions = true := by
+  decide +kernel
 
-/-- **op_result_indep_of_pool**: the typed conversion only uses `arr[:0]` as append scratch and clones what it appended:
-from ANY shared state — pool content arbitrary, not assumed zeroed — and any choice of `Get`, `NewXxx` yields exactly the
-values it appended. (So results do not rest on the zeroing, which matters for retention only.) -/
-theorem C15_op_result_indep_of_pool (vals : List Nat) (sh : Sh) (c1 c2 c3 c4 : Nat) :
-    ∃ ts, (soloExec (progNew vals) sh [c1, c2, c3, c4]).threads = [ts] ∧ ts.priv.out = vals :=
-  new_result_any_pool vals sh c1 c2 c3 c4
+/-- every listed exception still corresponds to an unguarded write the translator finds (a stale entry fails the build) -/
+theorem C15_inventory_exceptions_used : ∀ e ∈ exceptions,
+    SharedState.rows.any (fun r => r.pkg == e.pkg && r.name == e.name &&
+      r.writes.any (fun w => !w.guarded && SharedState.funcs.getD w.fn "" == e.fn)) = true := by
+  decide +kernel
 
-/-- **actions_commute**: an action of one operation and an action of another, executed in either order from a state that
-satisfies the invariants, give the same two private states and the same shared state up to the number of zeroed arrays in
-the pool (`sync.Pool.Get` may allocate instead of reusing). -/
-theorem C15_actions_commute (sh0 sh : Sh) (p q : Priv) (a b : Act) (c d : Nat)
-    (hok : ShOK sh) (hrel : OptsRel sh0 sh) (hp : PrivOK sh p) (hq : PrivOK sh q) :
-    (step a c p sh).1 = (step a c p (step b d q sh).2).1 ∧
-    (step b d q (step a c p sh).2).1 = (step b d q sh).1 ∧
-    ShEq (step b d q (step a c p sh).2).2 (step a c p (step b d q sh).2).2 :=
-  actions_commute sh0 sh p q a b c d hok hrel hp hq
+/-- **No exported function writes through a caller-supplied pointer to an options/config type** (the pattern of the
+repaired finding KF-C15-1: `options.Factory = …` on a shared `*mesgdef.Options`); the option types found are not an
+empty list. -/
+theorem C15_no_caller_options_written :
+    (∀ w ∈ SharedState.paramWrites, isOptionsType SharedState.optionTypes w = false) ∧
+    SharedState.optionTypes.contains "profile/mesgdef.Options" = true := by
+  decide +kernel
 
-/-- **Non-interference, at every point of every interleaving**: each operation's private state (held array, fields built,
-results so far) is what its own actions so far produce when it runs alone. -/
-theorem C15_non_interference_prefix (progs : List (List Act)) (sh0 : Sh) (h0 : ShOK sh0) (sched : List (Nat × Nat)) :
-    ∀ t ∈ (exec (initCfg progs sh0) sched).threads, t.priv = soloPriv sh0.opts t.done :=
-  priv_eq_solo progs sh0 h0 sched
+/-- a reference into package-level state leaves the library only for the listed tables -/
+theorem C15_inventory_escapes_listed : ∀ r ∈ SharedState.rows, r.escapes = true →
+    allowedEscapes.any (fun e => e.1 == r.pkg && e.2.1 == r.name) = true := by
+  decide +kernel
 
-/-- **C15_non_interference**: for every set of operations, every interleaving and every resolution of `Get`, an operation
-that has finished has exactly the result (and private state) of its solo run from the same initial shared state —
-whatever `Get` choices `cs` the solo run makes. -/
-theorem C15_non_interference (progs : List (List Act)) (sh0 : Sh) (h0 : ShOK sh0) (sched : List (Nat × Nat)) (i : Nat)
-    (t : Thread) (prog : List Act) (ht : (exec (initCfg progs sh0) sched).threads[i]? = some t)
-    (hp : progs[i]? = some prog) (hfin : t.todo = []) (cs : List Nat) (hcs : prog.length ≤ cs.length) :
-    ∃ ts, (soloExec prog sh0 cs).threads = [ts] ∧ ts.todo = [] ∧ t.priv = ts.priv := by
-  obtain ⟨ts, hts, htodo, hdone⟩ := solo_finished prog sh0 cs hcs
+/-- the premise of the first six exceptions: none of the `FieldBase` values the package initialisers build (the factory
+tables; more than a thousand) carries the name by which the decoder recognises a field it may complete in place -/
+theorem C15_no_table_entry_named_unknown :
+    SharedState.fieldBaseLiteralsNamedUnknown = 0 ∧ 1000 < SharedState.fieldBaseLiterals ∧ SharedState.nameUnknown = "unknown" := by
+  decide +kernel
+
+/-- the translator still sees the shared objects the property names (a gutted analysis fails here): the factory's message
+table built under its `Once`, the typed-message pool with hundreds of users, the CLI's decoder pool, the remover's lazily
+built set — found with the expected category and guard -/
+theorem C15_inventory_sees_known_state :
+    (SharedState.rows.any fun r => r.pkg == "profile/factory" && r.name == "protoMesgs" && r.onceOf.isSome && r.writes.length ≥ 2) = true ∧
+    (SharedState.rows.any fun r => r.pkg == "profile/factory" && r.name == "once" && r.cat == .once) = true ∧
+    (SharedState.rows.any fun r => r.pkg == "profile/mesgdef" && r.name == "pool" && r.cat == .pool && r.poolUses.length ≥ 200) = true ∧
+    (SharedState.rows.any fun r => r.pkg == "cmd/fitactivity/opener" && r.name == "pool" && r.cat == .pool && r.poolUses.length ≥ 1) = true ∧
+    (SharedState.rows.any fun r => r.pkg == "cmd/fitactivity/remover" && r.name == "knownNums" && r.onceOf.isSome) = true ∧
+    1000 ≤ SharedState.nFunctions ∧ 1000 ≤ SharedState.nEntryPoints := by
+  decide +kernel
+
+/-! ## 3. (before 2, which it uses) the programs of the real entry points -/
+
+theorem C15_generated_env_ok : EnvOK genEnv :=
+  envOfRows_ok SharedState.funcs exceptions SharedState.rows (by decide +kernel)
+
+/-- **every exported function's program — derived from which rows its call graph reads/writes/takes from a pool — is
+well formed**: its reads of a lazily built table come after the `Do`, it writes no shared row outside a `Once`, it uses
+the pools under the discipline. (A class whose translation contains `.write`, an unguarded `.read` of a `Once`-built
+row or `.putAgain` fails here.) -/
+theorem C15_generated_programs_wf : ∀ k, k < SharedState.classes.size → wfBal genEnv (classProg k) = true := by
+  decide +kernel
+
+/-! ## 2. the model -/
+
+/-- **Non-interference at every point of every interleaving**: what an operation has observed so far is what its own
+completed actions observe when it runs alone — for any environment, any well-formed programs, any number of them, any
+schedule, any resolution of `Get`. -/
+theorem C15_non_interference_prefix (env : Env) (henv : EnvOK env) (progs : List (List Act)) (sh0 : Sh) (h0 : ShOK env sh0)
+    (hwf : ∀ p ∈ progs, wf env p = true) (sched : List (Nat × Nat)) (i : Nat) (t : Thread)
+    (ht : (exec env (initCfg progs sh0) sched).threads[i]? = some t) :
+    t.priv.out = (soloRun env sh0.cell sh0.opts t.done).out := by
+  have inv := inv_exec env henv sh0.cell sh0.opts sched _ (inv_init env progs sh0 h0 hwf)
+  obtain ⟨_, _, _, hout, _⟩ := inv.thr i t ht
+  exact hout
+
+/-- **`soloRun` is the solo run**: the program alone, scheduled `soloFuel` times or more with any resolutions of `Get`,
+has finished and has observed exactly `soloRun` — the closed form is what `exec` does with a single thread. -/
+theorem C15_solo_run_is_exec (env : Env) (henv : EnvOK env) (prog : List Act) (sh0 : Sh) (h0 : ShOK env sh0)
+    (hwf : wf env prog = true) (cs : List Nat) (hcs : soloFuel env prog ≤ cs.length) :
+    ∃ ts, (exec env (initCfg [prog] sh0) (cs.map (fun c => (0, c)))).threads = [ts] ∧ ts.todo = [] ∧ ts.done = prog ∧
+      ts.priv.out = (soloRun env sh0.cell sh0.opts prog).out := by
+  have hwf' : ∀ p ∈ [prog], wf env p = true := by simpa using hwf
+  have inv0 := inv_init env [prog] sh0 h0 hwf'
+  have hown : SoloOwn (initCfg [prog] sh0).sh := by
+    intro o j k hs
+    rcases h0.1 o with h | ⟨h, _⟩ <;> simp [initCfg, h] at hs
+  obtain ⟨ts, hts, hfin⟩ := solo_finishes env henv sh0.cell sh0.opts cs (initCfg [prog] sh0)
+    { priv := initPriv, done := [], todo := prog } (by simp [initCfg]) inv0 hown
+    (Nat.le_trans (mu_le env sh0 prog) hcs)
+  have hget : (exec env (initCfg [prog] sh0) (cs.map (fun c => (0, c)))).threads[0]? = some ts := by simp [hts]
+  have hdone := finished_done env [prog] sh0 _ 0 ts prog hget (by simp) hfin
+  refine ⟨ts, hts, hfin, hdone, ?_⟩
+  rw [C15_non_interference_prefix env henv [prog] sh0 h0 hwf' _ 0 ts hget, hdone]
+
+/-- **C15_non_interference**: for every set of well-formed operations, every interleaving and every resolution of
+`Get`, an operation that has finished has observed exactly what it observes when it is run ALONE from the same initial
+shared state (alone = the same `exec`, one thread, any `Get` resolutions `cs`). -/
+theorem C15_non_interference (env : Env) (henv : EnvOK env) (progs : List (List Act)) (sh0 : Sh) (h0 : ShOK env sh0)
+    (hwf : ∀ p ∈ progs, wf env p = true) (sched : List (Nat × Nat)) (i : Nat) (t : Thread) (prog : List Act)
+    (ht : (exec env (initCfg progs sh0) sched).threads[i]? = some t) (hp : progs[i]? = some prog) (hfin : t.todo = [])
+    (cs : List Nat) (hcs : soloFuel env prog ≤ cs.length) :
+    ∃ ts, (exec env (initCfg [prog] sh0) (cs.map (fun c => (0, c)))).threads = [ts] ∧ ts.todo = [] ∧
+      t.priv.out = ts.priv.out := by
+  obtain ⟨ts, hts, htodo, _, hout⟩ :=
+    C15_solo_run_is_exec env henv prog sh0 h0 (hwf prog (List.mem_of_getElem? hp)) cs hcs
   refine ⟨ts, hts, htodo, ?_⟩
-  have h1 := finished_eq_solo progs sh0 h0 sched i t prog ht hp hfin
-  have h2 := priv_eq_solo [prog] sh0 h0 (cs.map (fun c => (0, c))) ts (by
-    have : (exec (initCfg [prog] sh0) (cs.map (fun c => (0, c)))).threads = [ts] := hts
-    rw [this]; simp)
-  rw [h1, h2, hdone]
+  rw [hout, C15_non_interference_prefix env henv progs sh0 h0 hwf sched i t ht,
+    finished_done env progs sh0 sched i t prog ht hp hfin]
 
-/-- **options_never_written**: for every set of operations, from every initial shared state and under every interleaving,
-every caller-provided options object — `Factory` set or nil, used by one operation or shared by many — is at every moment
-exactly what the caller made it: the library only READS option values. (No hypothesis at all; before the repair of
-KF-C15-1 this failed for a nil `Factory`, which every `ToMesg` overwrote.) -/
-theorem C15_options_never_written (progs : List (List Act)) (sh0 : Sh) (sched : List (Nat × Nat)) :
-    (exec (initCfg progs sh0) sched).sh.opts = sh0.opts :=
-  opts_exec sched _
+/-- the pool discipline invariant, at every point of every interleaving: no object is held by two operations, a held
+object is in no pool, an object is in the pools at most once -/
+theorem C15_pool_no_alias (env : Env) (henv : EnvOK env) (progs : List (List Act)) (sh0 : Sh) (h0 : ShOK env sh0)
+    (hwf : ∀ p ∈ progs, wf env p = true) (sched : List (Nat × Nat)) :
+    let cfg := exec env (initCfg progs sh0) sched
+    (∀ (i j : Nat) (t t' : Thread) (id : Nat), cfg.threads[i]? = some t → cfg.threads[j]? = some t' →
+        t.priv.held = some id → t'.priv.held = some id → i = j) ∧
+    (∀ (i : Nat) (t : Thread) (id q : Nat), cfg.threads[i]? = some t → t.priv.held = some id → id ∉ cfg.sh.pool q) ∧
+    (∀ q, (cfg.sh.pool q).Nodup) ∧ (∀ q1 q2 id, q1 ≠ q2 → id ∈ cfg.sh.pool q1 → id ∉ cfg.sh.pool q2) := by
+  have inv := inv_exec env henv sh0.cell sh0.opts sched _ (inv_init env progs sh0 h0 hwf)
+  exact ⟨inv.hh, inv.hp, inv.pn, inv.pd⟩
 
-/-- the full demand on shared caller objects: NO reachable configuration has a thread about to write an options object
-that another thread still accesses (write = the cell differs after the action, for some resolution of `Get`) -/
-def C15_no_conflict_full : Prop :=
-  ∀ (progs : List (List Act)) (sh0 : Sh), ShOK sh0 → ∀ sched, ¬ ConflictAt (exec (initCfg progs sh0) sched)
+/-- shared data at every point of every interleaving: rows nobody builds lazily keep their initial content, a `Once`
+that is done has all its rows built (a table is never seen half filled through its guard), and the caller's option
+objects are what the caller made them -/
+theorem C15_shared_rows_stable (env : Env) (henv : EnvOK env) (progs : List (List Act)) (sh0 : Sh) (h0 : ShOK env sh0)
+    (hwf : ∀ p ∈ progs, wf env p = true) (sched : List (Nat × Nat)) :
+    let cfg := exec env (initCfg progs sh0) sched
+    (∀ r, env.onceOf r = none → cfg.sh.cell r = sh0.cell r) ∧
+    (∀ o, cfg.sh.once o = .done → ∀ r ∈ env.body o, cfg.sh.cell r = env.built r) ∧
+    cfg.sh.opts = sh0.opts := by
+  have inv := inv_exec env henv sh0.cell sh0.opts sched _ (inv_init env progs sh0 h0 hwf)
+  refine ⟨inv.ro, fun o ho => ?_, inv.opts⟩
+  have := inv.once o
+  unfold OnceOK at this
+  simpa [ho] using this
 
-/-- **C15_no_conflict** (full strength; was `C15_no_conflict_partial` under the hypothesis "shared options have their
-`Factory` set" while KF-C15-1 was open): no operation ever writes an options object another operation uses. -/
-theorem C15_no_conflict : C15_no_conflict_full :=
-  fun _ _ _ _ => no_conflict_any _
+/-- **instantiation for the real entry points**: any operations each made of any exported functions of the library
+(given by their regenerated touch classes), from any well-formed shared state: every finished operation has observed what
+it observes alone. The hypotheses of `C15_non_interference` are discharged by the regenerated obligations. -/
+theorem C15_entry_points_non_interference (ops : List (List Nat)) (hops : ∀ op ∈ ops, ∀ k ∈ op, k < SharedState.classes.size)
+    (sh0 : Sh) (h0 : ShOK genEnv sh0) (sched : List (Nat × Nat)) (i : Nat) (t : Thread) (op : List Nat)
+    (ht : (exec genEnv (initCfg (ops.map (·.flatMap classProg)) sh0) sched).threads[i]? = some t)
+    (hp : ops[i]? = some op) (hfin : t.todo = [])
+    (cs : List Nat) (hcs : soloFuel genEnv (op.flatMap classProg) ≤ cs.length) :
+    ∃ ts, (exec genEnv (initCfg [op.flatMap classProg] sh0) (cs.map (fun c => (0, c)))).threads = [ts] ∧ ts.todo = [] ∧
+      t.priv.out = ts.priv.out := by
+  have hwfOp : ∀ op ∈ ops, wf genEnv (op.flatMap classProg) = true := by
+    intro op hop
+    exact wf_of_wfBal _ _ (wfBal_flatMap genEnv classProg op (fun k hk => C15_generated_programs_wf k (hops op hop k hk)))
+  refine C15_non_interference genEnv C15_generated_env_ok _ sh0 h0 ?_ sched i t _ ht ?_ hfin cs hcs
+  · intro p hpm
+    obtain ⟨op', hop', rfl⟩ := List.mem_map.mp hpm
+    exact hwfOp op' hop'
+  · simp [List.getElem?_map, hp]
 
-/-- **C15_shared_options_result** (concurrent = solo for conversions with a caller's options object, shared or not, `Factory`
-set or NIL): in every set of operations and every interleaving, a finished `x.ToMesg(options)` used the factory the
-caller's object named at the start — the standard factory if it named none — and produced exactly its own fields,
-however many other conversions used the same object meanwhile. -/
-theorem C15_shared_options_result (progs : List (List Act)) (sh0 : Sh) (h0 : ShOK sh0) (sched : List (Nat × Nat)) (i : Nat)
-    (t : Thread) (o : Nat) (vals : List Nat) (ht : (exec (initCfg progs sh0) sched).threads[i]? = some t)
-    (hp : progs[i]? = some (progToMesg o vals)) (hfin : t.todo = []) :
-    t.priv.out = (sh0.opts o).getD stdFactory :: vals := by
-  rw [finished_eq_solo progs sh0 h0 sched i t _ ht hp hfin]
-  simp [soloPriv, progToMesg, privSolo, initPriv]
+/-! ## each clause of `wf` is needed: dropping a guard breaks non-interference in the model -/
 
-/-- non-vacuity (the witness of the former finding KF-C15-1: two conversions sharing ONE options object whose `Factory`
-is nil, `kfProgs`/`kfSh`): the hypotheses hold, and under an interleaved schedule both conversions finish with the
-standard factory and their own fields while the shared object still has a nil `Factory` -/
-example : ShOK kfSh ∧
-    ((exec (initCfg kfProgs kfSh) [(0, 0), (1, 0), (1, 1), (0, 1), (0, 0), (1, 2), (1, 0), (0, 3), (0, 0), (1, 1)]).threads.map
-      (fun t => (t.todo, t.priv.out))) = [([], [stdFactory, 1]), ([], [stdFactory, 2])] ∧
-    (exec (initCfg kfProgs kfSh) [(0, 0), (1, 0), (1, 1), (0, 1), (0, 0), (1, 2), (1, 0), (0, 3), (0, 0), (1, 1)]).sh.opts 0 = none :=
-  ⟨kfSh_ok, by decide, rfl⟩
+/-- a small environment for the witnesses: row 5 is built by `Once` row 6, every other row is plain data -/
+def wEnv : Env :=
+  { onceOf := fun r => if r = 5 then some 6 else none, body := fun o => if o = 6 then [5] else [],
+    racy := fun _ => false, built := fun r => 2 * r + 2, half := fun r => 2 * r + 1 }
 
-/-- non-vacuity of the conflict notion: it is not a predicate that nothing satisfies — under the step semantics of the
-code before the repair (`stepPreFix`: the nil check assigns `options.Factory`) the same witness IS a conflict -/
-example : ConflictAtWith stepPreFix (initCfg kfProgs kfSh) := kf_conflict_preFix
+def wSh : Sh :=
+  { cell := fun _ => 0, once := fun _ => .idle, pool := fun _ => [], heap := fun _ => [], next := 0, opts := fun _ => none }
 
-/-- non-vacuity: a well-formed initial state with one SET and one NIL options object, three conversions of which two share
-the set one and two share the nil one: `C15_shared_options_result` applies to each of them in a finished interleaving -/
+theorem wEnv_ok : EnvOK wEnv := by
+  refine ⟨?_, ?_, ?_⟩
+  · intro o r h
+    by_cases ho : o = 6 <;> simp [wEnv, ho] at h ⊢
+    simp [h]
+  · intro o r h
+    by_cases hr : r = 5 <;> simp [wEnv, hr] at h ⊢
+    simp [← h]
+  · intro o
+    by_cases ho : o = 6 <;> simp [wEnv, ho]
+
+theorem wSh_ok : ShOK wEnv wSh := ⟨fun _ => Or.inl rfl, by simp [wSh], by simp [wSh], by simp [wSh]⟩
+
+/-- what the threads have observed, and whether they have finished -/
+def outs (cfg : Cfg) : List (List Nat × Bool) := cfg.threads.map fun t => (t.priv.out, t.todo.isEmpty)
+
+/-- **an object returned to the pool twice (seeded change C15-5)**: operation 0 puts its object back twice; operations 1
+and 2 are well formed, yet both get the SAME object and operation 1 reads operation 2's fields: `[1, 2, 2]` instead of
+the `[1, 1]` it observes alone. Only the `putAgain` makes operation 0 ill formed. -/
+theorem C15_witness_double_put :
+    let progs := [[Act.get 0, .reset, .put 0, .putAgain 0], [.get 0, .reset, .use [1], .readObj, .put 0],
+                  [.get 0, .reset, .use [2, 2], .readObj, .put 0]]
+    let sched := [(0, 0), (0, 0), (0, 0), (0, 0), (1, 1), (2, 1), (1, 0), (1, 0), (2, 0), (2, 0), (1, 0), (1, 0), (2, 0), (2, 0)]
+    outs (exec wEnv (initCfg progs wSh) sched) = [([], true), ([1, 2, 2], true), ([2, 2, 2, 2], true)] ∧
+    outs (exec wEnv (initCfg [progs[1]!] wSh) [(0, 0), (0, 0), (0, 0), (0, 0), (0, 0)]) = [([1, 1], true)] ∧
+    progs.map (wf wEnv) = [false, true, true] ∧ wf wEnv [Act.get 0, .reset, .put 0] = true := by
+  decide
+
+/-- **a table read in front of its `Once` (seeded changes C15-2, C15-6: unsynchronised fast path)**: operation 1 reads
+row 5 without going through the `Do`; while operation 0 is inside the closure it sees the published but unfilled table
+(`11`), alone it sees `0`, after the closure `12`: its result depends on the schedule. With the `Do` in front it is well
+formed. -/
+theorem C15_witness_unguarded_read :
+    let progs := [[Act.onceDo 6, .read 5], [.read 5]]
+    outs (exec wEnv (initCfg progs wSh) [(0, 0), (0, 0), (1, 0)]) = [([], false), ([11], true)] ∧
+    outs (exec wEnv (initCfg progs wSh) [(0, 0), (0, 0), (0, 0), (0, 0), (0, 0), (0, 0), (1, 0)]) = [([12], true), ([12], true)] ∧
+    outs (exec wEnv (initCfg [progs[1]!] wSh) [(0, 0)]) = [([0], true)] ∧
+    progs.map (wf wEnv) = [true, false] ∧ wf wEnv [Act.onceDo 6, .read 5] = true := by
+  decide
+
+/-- **an unguarded write of shared package state (seeded changes C15-1 / C15-4: one validator shared by all encoders;
+C20-5: a package map mutated through an alias)**: operation 0 reads back `9`, the other's value, instead of its own `5`. -/
+theorem C15_witness_unguarded_write :
+    let progs := [[Act.write 3 5, .read 3], [.write 3 9, .read 3]]
+    outs (exec wEnv (initCfg progs wSh) [(0, 0), (1, 0), (0, 0), (1, 0)]) = [([9], true), ([9], true)] ∧
+    outs (exec wEnv (initCfg [progs[0]!] wSh) [(0, 0), (0, 0)]) = [([5], true)] ∧
+    progs.map (wf wEnv) = [false, false] := by
+  decide
+
+/-- **a write to a caller-supplied options object (the repaired finding KF-C15-1)**: operation 1 only reads the shared
+options object and gets `7`, what operation 0 stored there, instead of the standard factory it gets alone. -/
+theorem C15_witness_options_write :
+    let progs := [[Act.optWrite 0 7, .optRead 0], [.optRead 0]]
+    outs (exec wEnv (initCfg progs wSh) [(0, 0), (1, 0), (0, 0)]) = [([7], true), ([7], true)] ∧
+    outs (exec wEnv (initCfg [progs[1]!] wSh) [(0, 0)]) = [([stdFactory], true)] ∧
+    progs.map (wf wEnv) = [false, true] := by
+  decide
+
+/-! ## non-vacuity -/
+
+/-- the hypotheses of `C15_non_interference` are met by a mix that uses every kind of shared state (a `Once`-built table
+raced at first use, a pool, a shared options object, a plain table): three operations interleaved action by action all
+finish with what they observe alone -/
 example :
-    let sh0 : Sh := { once := false, table := fun _ => 0, pool := [zeroArr], opts := fun o => if o = 0 then some 7 else none }
-    let progs := [progToMesg 0 [1], progToMesg 1 [2], progToMesg 0 [3], progToMesg 1 [4]]
-    let sched := (List.range 20).map (fun n => (n % 4, n % 3))
-    ShOK sh0 ∧ ((exec (initCfg progs sh0) sched).threads.map (fun t => (t.todo, t.priv.out))) =
-      [([], [7, 1]), ([], [stdFactory, 2]), ([], [7, 3]), ([], [stdFactory, 4])] := by
-  refine ⟨⟨by simp, by simp⟩, by decide⟩
+    let progs := [[Act.onceDo 6, .read 5, .get 0, .reset, .use [7], .readObj, .put 0, .optRead 0],
+                  [Act.get 0, .reset, .use [8, 8], .put 0, .onceDo 6, .read 5, .read 2],
+                  [Act.optRead 0, .onceDo 6, .read 5, .get 0, .reset, .readObj, .put 0]]
+    let sched := (List.range 60).map fun n => (n % 3, n % 2)
+    EnvOK wEnv ∧ ShOK wEnv wSh ∧ (∀ p ∈ progs, wf wEnv p = true) ∧
+    outs (exec wEnv (initCfg progs wSh) sched) =
+      progs.map (fun p => ((soloRun wEnv wSh.cell wSh.opts p).out, true)) := by
+  refine ⟨wEnv_ok, wSh_ok, by decide, by decide +kernel⟩
+
+/-- the generated environment and programs are not trivial: the factory's message table is a `Once`-built row, and the
+program derived for `Factory.CreateMesg` goes through the `Do` before it reads it -/
+example :
+    (SharedState.entries.any fun e => e.1 == "(*profile/factory.Factory).CreateMesg" &&
+      (classProg e.2).any (fun a => match a with | .onceDo _ => true | _ => false) &&
+      (classProg e.2).any (fun a => match a with | .read r => (genEnv.onceOf r).isSome | _ => false)) = true ∧
+    (SharedState.entries.any fun e => e.1 == "(*decoder.Decoder).Decode" &&
+      (classProg e.2).any (fun a => match a with | .get _ => true | _ => false) && (classProg e.2).length ≥ 10) = true := by
+  decide +kernel
 
 end Fit.C15
